@@ -61,13 +61,17 @@ def update_along_hook(fname='nv_state_update_along'):
     return h
 
 
-def lambda_arg(n):
-    """the LambdaExpr an argument expression is (looking through temporaries / casts), else None"""
+def lambda_arg(n, P=None):
+    """the LambdaExpr an argument expression is (looking through temporaries / casts), else None.  With the printer `P`: also the
+    lambda a LOCAL VARIABLE of the function was initialised with (`const auto callback = [&](..) {..}; f(.., callback);`), which the
+    printer records when it meets the declaration (`P.lambda_vars`)."""
     u = n
     while isinstance(u, dict) and u.get('kind') in ('MaterializeTemporaryExpr', 'CXXBindTemporaryExpr', 'ExprWithCleanups',
                                                     'ImplicitCastExpr', 'CXXFunctionalCastExpr', 'CXXConstructExpr') \
             and len(u.get('inner', [])) == 1:
         u = u['inner'][0]
+    if P is not None and isinstance(u, dict) and u.get('kind') == 'DeclRefExpr':
+        return getattr(P, 'lambda_vars', {}).get((u.get('referencedDecl') or {}).get('id'))
     return u if isinstance(u, dict) and u.get('kind') == 'LambdaExpr' else None
 
 
@@ -184,7 +188,7 @@ def lambda_call_hook(callee, stub, member=False):
     return h
 
 
-def lambda_stub_hook(callee, stub, lambda_cnames, body, member=False):
+def lambda_stub_hook(callee, stub, lambda_cnames, body, member=False, lead=None, ret='void', lambda_rets=None):
     """callee(a0, .., ak, [captures](..) {..})  ->  <stub>_<j>(a0, .., ak, [self,] <captures in capture order>), AND the C text of that
     stub is GENERATED (into the unit's prototypes) from the lambda as it is in the source now, so that a change of the capture
     list changes stub, call and the extracted body together (nothing is pinned by a hand-written prototype):
@@ -196,7 +200,11 @@ def lambda_stub_hook(callee, stub, lambda_cnames, body, member=False):
     value is given"); in it nv_a0..nv_ak are the callee's other arguments (default passing: glvalues by address) and
     `@CALL(x, y)` is the call of the lambda body with operator() arguments x, y.  `self` is passed whenever the enclosing
     function has a self struct (the lambda Fn must be declared with the same self_struct), whether or not `this` is captured.
-    member=True: the member call `obj.callee(a0, .., lambda)`; the stub's first parameter is then `<C type of obj>* nv_obj`."""
+    member=True: the member call `obj.callee(a0, .., lambda)`; the stub's first parameter is then `<C type of obj>* nv_obj`.
+    lead=[k, ..]: only these of the callee's other arguments are handed to the stub (as nv_a<k>; the rest is never translated: names,
+    loggers); ret='C type': the stub returns a value (the callee's result; `body` then ends in a return statement); lambda_rets=['C type', ..]:
+    return type of the j-th lambda body where clang's deduced type is a dependent spelling (the same override as `Fn(.., ret=..)`).  The lambda may also
+    be a local lambda VARIABLE of the function handed over by name (`lambda_arg(.., P)`)."""
     from astload import lambda_captures as caps_of, lambda_call_operator
     from cxx2c import return_type_of
 
@@ -211,7 +219,7 @@ def lambda_stub_hook(callee, stub, lambda_cnames, body, member=False):
             rd = unwrap(n['inner'][0]).get('referencedDecl') or {}
             if rd.get('name') != callee:
                 return None
-        lam = lambda_arg(n['inner'][-1])
+        lam = lambda_arg(n['inner'][-1], P)
         if lam is None:
             return None
         seen = P.__dict__.setdefault('_lambda_calls', {}).setdefault(callee, [])
@@ -232,6 +240,8 @@ def lambda_stub_hook(callee, stub, lambda_cnames, body, member=False):
             lead_params.append(f'{P.ctype(ot)}* nv_obj')
             lead_args.append(P.expr(obj) if n['inner'][0].get('isArrow') else P.addr(obj))
         for k, a in enumerate(n['inner'][1:-1]):
+            if lead is not None and k not in lead:
+                continue
             u = a           # the same decision as Printer.arg: glvalues (bound to references) by address, prvalues by value
             while u.get('kind') in TRANSPARENT and u.get('kind') != 'MaterializeTemporaryExpr':
                 u = u['inner'][0]
@@ -262,11 +272,11 @@ def lambda_stub_hook(callee, stub, lambda_cnames, body, member=False):
         selfp = [f'{P.self_struct}* self'] if P.self_struct else []
         selfa = ['self'] if P.self_struct else []
         lname = lambda_cnames[j]
-        ret = P.ctype_q(return_type_of(op['type']['qualType']))
-        proto = f'{ret} {lname}({", ".join(selfp + op_params + cap_params)});'
+        lret = lambda_rets[j] if lambda_rets and lambda_rets[j] else P.ctype_q(return_type_of(op['type']['qualType']))
+        proto = f'{lret} {lname}({", ".join(selfp + op_params + cap_params)});'
         call = lambda m: f'{lname}({", ".join(selfa + [x.strip() for x in m.group(1).split(",")] + cap_names)})'
         text = re.sub(r'@CALL\(([^()]*)\)', call, body)
-        P.protos[f'{stub}_{j}'] = f'{proto}\nstatic void {stub}_{j}({", ".join(lead_params + selfp + cap_params)})\n{{ {text} }}'
+        P.protos[f'{stub}_{j}'] = f'{proto}\nstatic {ret} {stub}_{j}({", ".join(lead_params + selfp + cap_params)})\n{{ {text} }}'
         P.note(f'{callee}(.., lambda #{j}) -> generated {stub}_{j} calling {lname}')
         return f'{stub}_{j}({", ".join(lead_args + selfa + cap_args)})'
     return h
